@@ -228,6 +228,19 @@ func init() {
 			}
 			return nil
 		},
+		// vFork(c): decide c by forking on it (never if-converted into an ite); returns a concrete bool
+		"vFork": func(m *Machine, caller *frame, fn *ssa.Function, args []Value, pos token.Pos) Value {
+			c := args[0].(*Term)
+			if c.IsConst() {
+				return c
+			}
+			return Bool(m.ex.Branch(c, m.posStr(pos)))
+		},
+		// vConcretize(x, max): case-split x into its feasible concrete values (at most max)
+		"vConcretize": func(m *Machine, caller *frame, fn *ssa.Function, args []Value, pos token.Pos) Value {
+			mx := args[1].(*Term)
+			return I64(int64(m.ex.Concretize(args[0].(*Term), int(mx.val), m.posStr(pos))))
+		},
 		"vCut": func(m *Machine, caller *frame, fn *ssa.Function, args []Value, pos token.Pos) Value {
 			panic(&CutPath{m.goString(args[0].(Str))})
 		},
@@ -375,7 +388,7 @@ func init() {
 				}
 				return Iface{}
 			}
-			if f := m.prog.LookupMethod(err.t, nil, "Unwrap"); f != nil {
+			if f := m.lookupMethodSafe(err.t, "Unwrap"); f != nil {
 				return m.callClosure(caller, &Closure{fn: f}, []Value{err.v}, pos)
 			}
 			return Iface{}
@@ -444,6 +457,15 @@ func init() {
 }
 
 
+// lookupMethodSafe returns the (exported) method name of t, or nil when t has none.
+func (m *Machine) lookupMethodSafe(t types.Type, name string) *ssa.Function {
+	sel := m.prog.MethodSets.MethodSet(t).Lookup(nil, name)
+	if sel == nil {
+		return nil
+	}
+	return m.prog.MethodValue(sel)
+}
+
 func (m *Machine) errorsIs(fr *frame, err, target Iface, pos token.Pos) bool {
 	for depth := 0; depth < 16; depth++ {
 		if err.t == nil {
@@ -467,12 +489,12 @@ func (m *Machine) errorsIs(fr *frame, err, target Iface, pos token.Pos) bool {
 			err = oe.wraps[0].(Iface)
 			continue
 		}
-		if f := m.prog.LookupMethod(err.t, nil, "Is"); f != nil {
+		if f := m.lookupMethodSafe(err.t, "Is"); f != nil {
 			if r := m.callClosure(fr, &Closure{fn: f}, []Value{err.v, target}, pos).(*Term); r.IsTrue() {
 				return true
 			}
 		}
-		if f := m.prog.LookupMethod(err.t, nil, "Unwrap"); f != nil {
+		if f := m.lookupMethodSafe(err.t, "Unwrap"); f != nil {
 			r := m.callClosure(fr, &Closure{fn: f}, []Value{err.v}, pos)
 			if ri, ok := r.(Iface); ok {
 				err = ri
@@ -513,7 +535,7 @@ func (m *Machine) errorsAs(fr *frame, err, target Iface, pos token.Pos) bool {
 			err = oe.wraps[0].(Iface)
 			continue
 		}
-		if f := m.prog.LookupMethod(err.t, nil, "Unwrap"); f != nil {
+		if f := m.lookupMethodSafe(err.t, "Unwrap"); f != nil {
 			r := m.callClosure(fr, &Closure{fn: f}, []Value{err.v}, pos)
 			if ri, ok := r.(Iface); ok {
 				err = ri
